@@ -334,12 +334,12 @@ pub fn parse(iter: &mut Iter<'_>) -> Defs {
                             });
                             category = Some(short);
                         }
-                        _ => println!("Malformed category directive"),
+                        _ => eprintln!("Malformed category directive"),
                     }
                 }
                 Token::Ident(ref s) if s == "endcategory" => {
                     if category.is_none() {
-                        println!("Stray endcategory directive");
+                        eprintln!("Stray endcategory directive");
                     }
                     category = None
                 }
@@ -348,11 +348,11 @@ pub fn parse(iter: &mut Iter<'_>) -> Defs {
                         (Token::Ident(subst), Token::Ident(sym)) => {
                             symbols.insert(subst, sym);
                         }
-                        _ => println!("Malformed symbol directive"),
+                        _ => eprintln!("Malformed symbol directive"),
                     }
                 }
                 Token::Ident(ref s) => {
-                    println!("Unknown directive !{s}");
+                    eprintln!("Unknown directive !{s}");
                     loop {
                         match iter.peek().cloned().unwrap() {
                             Token::Newline | Token::Eof => break,
@@ -363,7 +363,7 @@ pub fn parse(iter: &mut Iter<'_>) -> Defs {
                     }
                 }
                 _ => {
-                    println!("syntax error: expected ident after !");
+                    eprintln!("syntax error: expected ident after !");
                     loop {
                         match iter.peek().cloned().unwrap() {
                             Token::Newline | Token::Eof => break,
@@ -463,7 +463,7 @@ pub fn parse(iter: &mut Iter<'_>) -> Defs {
                                 }
                                 Token::RightBrace => break,
                                 x => {
-                                    println!("Expected property, got {:?}", x);
+                                    eprintln!("Expected property, got {:?}", x);
                                     break;
                                 }
                             };
@@ -472,7 +472,7 @@ pub fn parse(iter: &mut Iter<'_>) -> Defs {
                                     let input_name = match iter.next().unwrap() {
                                         Token::Ident(name) => name,
                                         x => {
-                                            println!(
+                                            eprintln!(
                                                 "Expected property input \
                                                  name, got {:?}",
                                                 x
@@ -493,7 +493,7 @@ pub fn parse(iter: &mut Iter<'_>) -> Defs {
                                 }
                                 Token::Ident(name) => name,
                                 x => {
-                                    println!("Expected property input name, got {:?}", x);
+                                    eprintln!("Expected property input name, got {:?}", x);
                                     break;
                                 }
                             };
@@ -501,14 +501,14 @@ pub fn parse(iter: &mut Iter<'_>) -> Defs {
                             match iter.next().unwrap() {
                                 Token::Slash => (),
                                 x => {
-                                    println!("Expected /, got {:?}", x);
+                                    eprintln!("Expected /, got {:?}", x);
                                     break;
                                 }
                             }
                             let input_name = match iter.next().unwrap() {
                                 Token::Ident(name) => name,
                                 x => {
-                                    println!("Expected property input name, got {:?}", x);
+                                    eprintln!("Expected property input name, got {:?}", x);
                                     break;
                                 }
                             };
@@ -545,7 +545,7 @@ pub fn parse(iter: &mut Iter<'_>) -> Defs {
                     }
                 }
             }
-            x => println!("Expected definition on line {}, got {:?}", line, x),
+            x => eprintln!("Expected definition on line {}, got {:?}", line, x),
         };
     }
 
